@@ -11,6 +11,7 @@ are interleaved.  The run ends with a fault-free drain.  Oracle: models.streams_
 import hashlib
 
 from dsim.kernel import Violations
+from models.usb2_wire import gen_idle_data
 from models.usb2 import UTMIHost, token_packet
 from models import streams_usb2 as su
 from engines.usb2_device import device_bench, IDLE_INIT
@@ -115,6 +116,7 @@ def gen(rng, tier, index):
             ops.append({"op": "foreign_in", "addr": rng.randint(1, 127), "ep": rng.choice([1, 1, 2, 0])})
         else:
             ops.append({"op": "idle", "n": rng.randint(1, 40)})
+    cfg["idle_data"] = gen_idle_data(rng)
     return {"engine": ENGINE, "config": cfg, "ops": ops}
 
 
@@ -221,7 +223,7 @@ def run(scn):
         yield from h.idle(6)
 
     txr = cfg["txready"] if cfg["txready"] == "always" else tuple(cfg["txready"])
-    host = UTMIHost(script, byte_period=cfg["byte_period"], pre=cfg["pre"], post=cfg["post"], txready=txr)
+    host = UTMIHost(script, idle_data=cfg.get("idle_data"), byte_period=cfg["byte_period"], pre=cfg["pre"], post=cfg["post"], txready=txr)
     stall = 1 if txr == "always" else 3
     per_txn = 12 * cfg["byte_period"] + (mps + 6) * stall + 2 * ctx.timeout + 4 * ctx.turn + 40
     max_cycles = 1000 + sum(op.get("n", 0) for op in ops) + (len(ops) + 2 * drain_budget) * per_txn \
